@@ -376,6 +376,11 @@ func describeExpr(f *FuncInfo, e ast.Expr, depth int) string {
 			return "call:" + describeExpr(f, x.Fun, depth) + "(" + strings.Join(args, ",") + ")"
 		}
 		return "call:" + id + "(" + strings.Join(args, ",") + ")"
+	case *ast.TypeAssertExpr:
+		if x.Type == nil {
+			return describeExpr(f, x.X, depth) + ".(type)"
+		}
+		return describeExpr(f, x.X, depth) + ".(" + namedTypeID(info.TypeOf(x.Type)) + ")"
 	case *ast.StarExpr:
 		return "*" + describeExpr(f, x.X, depth)
 	case *ast.UnaryExpr:
